@@ -1080,6 +1080,11 @@ where
     let a0 = total_allocs();
     run_loans::<CS>(args, m, "main");
     let (b1, y1) = (live_blocks(), live_bytes());
+    {
+        // one actual case: the operation mix this round executed (summed over its threads)
+        let ops: std::collections::BTreeMap<String, u64> = m.counters.iter().map(|(k, v)| (k.clone(), *v)).collect();
+        m.sample(|| json!({"round": "main", "workload": "threads race lend/seal/loan-drop/remove/re-add on the in-memory state", "operation_counts": ops}));
+    }
     m.count("allocations_during_round", total_allocs() - a0);
     // The monitor's own counters/sets allocate; measure them by the same yardstick.
     let own = m.counters.len() as i64 + m.distinct.len() as i64;
